@@ -60,6 +60,9 @@ func c18Mk(cfg int) func(log *[]string) rj.Inputs {
 			vars["x"] = "VM"
 		case 2:
 			in.Globals["x"] = "GL"
+		case 3: // nil VarMap: everything the template needs comes from the globals
+			in.Globals = vars
+			in.Vars = nil
 		}
 		return in
 	}
@@ -192,7 +195,7 @@ var c18Seq = registerSpace(&e1Space{
 	Prop: "C18", Name: "scopes",
 	N: func(th bool) int64 {
 		seqs := int64(1 + c18NOps + c18NOps*c18NOps + c18NOps*c18NOps*c18NOps)
-		return seqs * c18NSites * 3 * 2
+		return seqs * c18NSites * 4 * 2
 	},
 	Gen: func(i int64, th bool) *rj.Program {
 		seqs := int64(1 + c18NOps + c18NOps*c18NOps + c18NOps*c18NOps*c18NOps)
@@ -200,8 +203,8 @@ var c18Seq = registerSpace(&e1Space{
 		i /= seqs
 		site := int(i % c18NSites)
 		i /= c18NSites
-		cfg := int(i % 3)
-		pre := int(i / 3) // 0: nothing declared outside; 1: x declared in an enclosing scope
+		cfg := int(i % 4)
+		pre := int(i / 4) // 0: nothing declared outside; 1: x declared in an enclosing scope
 		n := 0
 		for n = 0; n <= 3; n++ {
 			if si < pow(c18NOps, int64(n)) {
